@@ -133,15 +133,21 @@ def _defer_facts(tree):
     for w, _nm in withs:
         for st in ast.walk(w):
             if isinstance(st, ast.If) and _calls(ast.Module(body=st.body, type_ignores=[]), 'self._create_task_execution'):
-                for e in st.orelse:
+                chain = list(st.orelse)
+                while chain:
+                    e = chain.pop(0)
                     if not isinstance(e, ast.If):
-                        if _calls(e, 'self.set_state'):
-                            rearm = ('always', 'else')
+                        if _calls(e, 'self.set_state') or _calls(e, 'self._create_task_execution'):
+                            raise TranslateError('Task.defer: unconditional change of an existing execution')
                         continue
-                    if not _calls(ast.Module(body=e.body, type_ignores=[]), 'self.set_state'):
-                        raise TranslateError('Task.defer: unrecognised branch for an existing execution: %s' % _src(e.test))
-                    if e.orelse:
-                        raise TranslateError('Task.defer: unrecognised else-branch for an existing execution')
+                    chain = list(e.orelse) + chain
+                    body = ast.Module(body=e.body, type_ignores=[])
+                    if _calls(body, 'self._create_task_execution'):
+                        raise TranslateError('Task.defer: second creation branch')
+                    if not _calls(body, 'self.set_state'):
+                        continue            # a branch that leaves the existing execution as it is
+                    if rearm[0] != 'never':
+                        raise TranslateError('Task.defer: more than one branch changes an existing execution')
                     t = e.test
                     base = ('states.is_completed(self.task_ex.state)', 'self.task_ex.state != states.WAITING')
                     if _src(t) in base:
